@@ -247,7 +247,10 @@ def _execute(sc, sim, out):
     def reference(i):
         # what a fresh Fitter returned (phase 0) for a fresh Source holding the object's CURRENT content
         return pre.get((i, version[i]))
-    store0 = digest(np.asarray(shared.models.fluxes.value, float).tobytes())
+    def _store_digest():
+        ext = shared.models.extended
+        return digest((np.asarray(shared.models.fluxes.value, float).tobytes(), np.asarray(ext).astype('u1').tobytes() if isinstance(ext, np.ndarray) else repr(ext)))
+    store0 = _store_digest()
     seen = {}
     earlier = []
     trace = [spec['format'], W.apdep, sc['memmap']]
@@ -306,8 +309,8 @@ def _execute(sc, sim, out):
         earlier.append((info, _arrays_only(info)))
     if not out.violations:
         out.compared('model-store')
-        if digest(np.asarray(shared.models.fluxes.value, float).tobytes()) != store0:
-            out.violate('model-store-changed', 'the fitter\'s model fluxes changed during the history')
+        if _store_digest() != store0:
+            out.violate('model-store-changed', 'the fitter\'s model fluxes or resolved-model flags changed during the history')
         for info, c in earlier:
             out.probe('earlier_results_rechecked')
             if _arrays_only(info) != c:
